@@ -30,6 +30,12 @@ MEMBER_TEXT = {
     "ctor-copy:default": "{N}(const {N} &) = default;",
     "ctor-copy:delete": "{N}(const {N} &) = delete;",
     "ctor-copy:nonconst": "{N}({N} &);",
+    # a copy constructor with a defaulted extra parameter (is a copy constructor) and two-parameter constructors whose
+    # first parameter is a reference to the class (are NOT copy / move constructors)
+    "ctor-copy:dflt2": "{N}(const {N} &, int = 0);",
+    "ctor-xcopy2": "{N}(const {N} &, int);",
+    "ctor-xmove2": "{N}({N} &&, int);",
+    "ctor-xcopy3": "{N}(const {N} &, int, int);",
     "ctor-move:user": "{N}({N} &&);",
     "ctor-move:default": "{N}({N} &&) = default;",
     "ctor-move:delete": "{N}({N} &&) = delete;",
@@ -108,7 +114,8 @@ SIMPLER = {
     "assign-move:delete": ["assign-move:user"],
 }
 
-CTOR_TAGS = [t for t in MEMBER_TEXT if t.startswith("ctor-")]
+CTOR_TAGS = [t for t in MEMBER_TEXT if t.startswith("ctor-") and t not in
+             ("ctor-copy:dflt2", "ctor-xcopy2", "ctor-xmove2", "ctor-xcopy3")]
 DTOR_TAGS = [t for t in MEMBER_TEXT if t.startswith("dtor:")]
 DATA_PLAIN = ["data:int", "data:int-init", "data:const-int", "data:const-int-init", "data:array-const-int",
               "data:volatile-int", "data:mutable-int", "data:ref", "data:ref-init", "data:rref", "data:ptr",
@@ -383,4 +390,26 @@ def gen_model(rng, n_classes=12, depth_max=4, width_max=3, published=True):
         pures[name] = my_pure
         rng.shuffle(mem)
         classes.append(c)
+    # always present: two-parameter "almost copy/move" constructors, with and without a real copy constructor, next to
+    # things that make the implicit copy constructor deleted
+    k = n_classes
+
+    def fixed(members, bases=()):
+        nonlocal k
+        c = {"name": f"C{k}", "kw": rng.choice(["struct", "class"]), "final": False,
+             "bases": [{"ref": b, "access": "public", "virtual": False} for b in bases],
+             "members": [{"tag": t, "access": "public", "n": i} for i, t in enumerate(members)]}
+        if published:
+            c["members"].append({"tag": "fn:published", "access": "PUBLISHED", "n": 99})
+        k += 1
+        classes.append(c)
+        return c["name"]
+    two = rng.choice(["ctor-xcopy2", "ctor-xcopy2", "ctor-xmove2"])
+    fixed(["ctor-default:user", "ctor-xcopy2"])
+    fixed(["ctor-default:user", two, "ctor-move:user"])
+    nocopy = fixed(["ctor-default:user", "ctor-copy:delete"])
+    fixed(["ctor-default:user", "ctor-xcopy2"], bases=[nocopy])
+    fixed(["ctor-default:user", rng.choice(["ctor-copy:dflt2", "ctor-xcopy3"])] +
+          (["ctor-move:user"] if rng.random() < 0.5 else []))
+    fixed(["ctor-default:user", "ctor-xcopy2", "ctor-copy:user"])
     return {"classes": classes}
